@@ -7,6 +7,8 @@ import (
 	"go/token"
 	"go/types"
 	"math/big"
+	"os"
+	"regexp"
 	"strings"
 
 	"golang.org/x/tools/go/ssa"
@@ -42,6 +44,7 @@ type CEnv struct {
 	// (its existentials are skolemised with named functions), -1 = it has to be
 	// established (its existentials are offered the named skolem terms and the
 	// witness hints as extra disjuncts, an equivalent formula), 0 = neither.
+	fr   *Frame
 	role int
 	univ []Term // enclosing universally bound variables usable as skolem arguments
 }
@@ -60,6 +63,19 @@ type skolemFn struct {
 	name string
 	args []Sort
 	ret  Sort
+	lits map[string]bool // string literals in the body it was introduced for
+}
+
+var strlitRe = regexp.MustCompile(`strlit_[0-9]+_[A-Za-z0-9_]*`)
+
+func litsOf(s string) map[string]bool {
+	m := map[string]bool{}
+	for _, l := range strlitRe.FindAllString(s, -1) {
+		if l != "strlit_0_" {
+			m[l] = true
+		}
+	}
+	return m
 }
 
 // replaceToken substitutes whole SMT symbols only.
@@ -100,7 +116,7 @@ func (x *Exec) cvOfVal(v *Val) *CV {
 // contractEnv builds the name environment of a frame: parameters, free
 // variables and named allocs (locals whose address is taken).
 func (x *Exec) contractEnv(fr *Frame, st *State) *CEnv {
-	env := &CEnv{x: x, st: st, old: fr.entry, vars: map[string]*CV{}, pkg: fr.pkg, fn: fr.fn}
+	env := &CEnv{x: x, st: st, old: fr.entry, vars: map[string]*CV{}, pkg: fr.pkg, fn: fr.fn, fr: fr}
 	for _, p := range fr.fn.Params {
 		if v, ok := fr.env[p]; ok {
 			cv := x.cvOfVal(v)
@@ -263,6 +279,15 @@ func (x *Exec) eval(env *CEnv, e CExpr) (*CV, error) {
 			keep = n.Op == "&&" || n.Op == "||" || n.Op == "==>"
 		case *CUn:
 			keep = n.Op == "!"
+		case *CCall:
+			// old(..)/pre(..) only switch the state; a plain (non-recursive,
+			// non-opaque) spec function is expanded in place so that the
+			// existentials of its body take part in witness propagation
+			if n.Fun == "old" || n.Fun == "pre" {
+				keep = true
+			} else if sp := x.w.findSpec(env.pkg, n.Fun); sp != nil && !sp.Rec && !sp.Opaque && sp.Body != nil && !env.inSpec && env.specHeaps == nil {
+				keep = true
+			}
 		}
 		if !keep {
 			env = env.withRole(0)
@@ -651,6 +676,15 @@ func (x *Exec) resolveType(env *CEnv, s string) (types.Type, error) {
 
 var nQuant int
 
+var maxCands = func() int {
+	if v := os.Getenv("VC_CANDS"); v != "" {
+		var n int
+		fmt.Sscan(v, &n)
+		return n
+	}
+	return 64
+}()
+
 func (x *Exec) evalQuant(env *CEnv, n *CQuant) (*CV, error) {
 	inner := *env
 	inner.vars = map[string]*CV{}
@@ -713,12 +747,16 @@ func (x *Exec) evalQuant(env *CEnv, n *CQuant) (*CV, error) {
 			if len(at) > 0 {
 				app = "(" + sk + " " + strings.Join(at, " ") + ")"
 			}
-			x.skolems = append(x.skolems, skolemFn{sk, as, cv.T.Sort})
+			x.skolems = append(x.skolems, skolemFn{name: sk, args: as, ret: cv.T.Sort})
 			inner.vars[v.Name] = &CV{T: Term{app, cv.T.Sort}, Ty: cv.Ty}
 		}
+		first := len(x.skolems) - len(n.Vars)
 		body, err := x.evalBool(&inner, n.Body)
 		if err != nil {
 			return nil, err
+		}
+		for k := first; k < first+len(n.Vars) && k < len(x.skolems); k++ {
+			x.skolems[k].lits = litsOf(body.S)
 		}
 		return &CV{T: body, Ty: types.Typ[types.Bool]}, nil
 	}
@@ -734,9 +772,21 @@ func (x *Exec) evalQuant(env *CEnv, n *CQuant) (*CV, error) {
 		for _, u := range env.univ {
 			at = append(at, u.S)
 		}
+		goalLits := litsOf(body.S)
 		for _, sk := range x.skolems {
 			if sk.ret != vname.Sort || len(sk.args) != len(env.univ) {
 				continue
+			}
+			// relevance: a witness introduced for a fact about other string
+			// constants than this goal mentions is no candidate
+			if len(sk.lits) > 0 && len(goalLits) > 0 {
+				shared := false
+				for l := range sk.lits {
+					shared = shared || goalLits[l]
+				}
+				if !shared {
+					continue
+				}
 			}
 			same := true
 			for i := range sk.args {
@@ -751,16 +801,33 @@ func (x *Exec) evalQuant(env *CEnv, n *CQuant) (*CV, error) {
 				cands = append(cands, sk.name)
 			}
 		}
-		if len(cands) > 8 {
-			cands = cands[len(cands)-8:]
+		if len(cands) > maxCands {
+			cands = cands[len(cands)-maxCands:]
 		}
 		wenv := inner.withRole(0)
+		wenv.vars = map[string]*CV{}
+		for k, v := range inner.vars {
+			wenv.vars[k] = v
+		}
+		// "_" in a hint stands for each offered skolem term
+		const hole = "witness!hole"
+		wenv.vars["_"] = &CV{T: Term{hole, vname.Sort}, Ty: inner.vars[n.Vars[0].Name].Ty}
+		skc := append([]string(nil), cands...)
 		for _, w := range n.Witness {
 			cv, err := x.eval(wenv, w)
 			if err != nil {
-				return nil, fmt.Errorf("witness: %v", err)
+				continue // a hint naming something not in scope at this point is no candidate here
 			}
-			cands = append(cands, x.cvTerm(cv, inner.vars[n.Vars[0].Name]).S)
+			ts := x.cvTerm(cv, inner.vars[n.Vars[0].Name]).S
+			if strings.Contains(ts, hole) {
+				for _, c := range skc {
+					if ts != hole {
+						cands = append(cands, replaceToken(ts, hole, c))
+					}
+				}
+				continue
+			}
+			cands = append(cands, ts)
 		}
 		for _, c := range cands {
 			offered = append(offered, Term{replaceToken(body.S, vname.S, c), SBool})
@@ -786,7 +853,9 @@ func (x *Exec) evalQuant(env *CEnv, n *CQuant) (*CV, error) {
 	if pat := x.opaquePattern(bs, qnames); pat != "" {
 		res := T(SBool, "(%s (%s) (! %s :pattern (%s)))", q, strings.Join(binders, " "), bs, pat)
 		if len(offered) > 0 {
+			plain := res
 			res = Or(append(offered, res)...)
+			x.offeredForms = append(x.offeredForms, [2]string{res.S, plain.S})
 		}
 		return &CV{T: res, Ty: types.Typ[types.Bool]}, nil
 	}
@@ -804,7 +873,9 @@ func (x *Exec) evalQuant(env *CEnv, n *CQuant) (*CV, error) {
 	}
 	res := T(SBool, "(%s (%s) %s)", q, strings.Join(binders, " "), bs)
 	if len(offered) > 0 {
+		plain := res
 		res = Or(append(offered, res)...)
+		x.offeredForms = append(x.offeredForms, [2]string{res.S, plain.S})
 	}
 	return &CV{T: res, Ty: types.Typ[types.Bool]}, nil
 }
@@ -1259,6 +1330,36 @@ func (x *Exec) callSpec(env *CEnv, sp *SpecFunc, n *CCall) (*CV, error) {
 	}
 	if len(n.Args) != len(sp.Params) {
 		return nil, fmt.Errorf("spec %s: want %d args", sp.Name, len(sp.Params))
+	}
+	if env.role != 0 && !sp.Rec && !sp.Opaque && sp.Body != nil && !env.inSpec && env.specHeaps == nil {
+		// expansion in place (same meaning as the compiled function applied to the current heaps)
+		inst := *env
+		inst.vars = map[string]*CV{}
+		inst.pkg = x.w.typesPkg(sp.Pkg)
+		aenv := env.withRole(0)
+		ok := true
+		for i, a := range n.Args {
+			v, err := x.eval(aenv, a)
+			if err != nil {
+				return nil, err
+			}
+			like := &CV{Ty: cs.params[i], T: Term{"", SInt}}
+			if cs.params[i] != nil {
+				like.T = Term{"", x.sortOf(cs.params[i])}
+			}
+			t := x.cvTerm(v, like)
+			if cs.params[i] != nil && t.Sort != x.sortOf(cs.params[i]) {
+				ok = false
+				break
+			}
+			inst.vars[sp.Params[i].Name] = &CV{T: t, Ty: cs.params[i]}
+		}
+		if ok {
+			bv, err := x.eval(&inst, sp.Body)
+			if err == nil && bv.T.Sort == cs.retS {
+				return &CV{T: bv.T, Ty: cs.ret}, nil
+			}
+		}
 	}
 	var args []Term
 	for i, a := range n.Args {
